@@ -99,7 +99,7 @@ func sumFunc(arg query) func(query, iterator) interface{} {
 		switch typ := functionArgs(arg).Evaluate(t).(type) {
 		case query:
 			for node := typ.Select(t); node != nil; node = typ.Select(t) {
-				if v, err := strconv.ParseFloat(node.Value(), 64); err == nil {
+				if v := stringToNumber(node.Value()); !math.IsNaN(v) {
 					sum += v
 				}
 			}
@@ -116,6 +116,35 @@ func sumFunc(arg query) func(query, iterator) interface{} {
 	}
 }
 
+// stringToNumber converts a string to a number the way the XPath number()
+// function does: optional whitespace, an optional minus sign, a Number
+// (Digits ('.' Digits?)? | '.' Digits) and optional whitespace; any other
+// string is NaN. Go's own float syntax (exponents, '+', "Inf", hexadecimal,
+// digit separators) is not XPath syntax.
+func stringToNumber(s string) float64 {
+	s = strings.Trim(s, " \t\r\n")
+	digits, dot := 0, false
+	for i := 0; i < len(s); i++ {
+		switch c := s[i]; {
+		case c >= '0' && c <= '9':
+			digits++
+		case c == '.' && !dot:
+			dot = true
+		case c == '-' && i == 0:
+		default:
+			return math.NaN()
+		}
+	}
+	if digits == 0 {
+		return math.NaN()
+	}
+	v, err := strconv.ParseFloat(s, 64)
+	if err != nil && !math.IsInf(v, 0) {
+		return math.NaN()
+	}
+	return v
+}
+
 func asNumber(t iterator, o interface{}) float64 {
 	switch typ := o.(type) {
 	case query:
@@ -123,16 +152,11 @@ func asNumber(t iterator, o interface{}) float64 {
 		if node == nil {
 			return math.NaN()
 		}
-		if v, err := strconv.ParseFloat(node.Value(), 64); err == nil {
-			return v
-		}
+		return stringToNumber(node.Value())
 	case float64:
 		return typ
 	case string:
-		v, err := strconv.ParseFloat(typ, 64)
-		if err == nil {
-			return v
-		}
+		return stringToNumber(typ)
 	}
 	return math.NaN()
 }
